@@ -507,7 +507,8 @@ class DFState:
                     continue
                 if data <= set(i.on_values):
                     return i
-                elif data > set(i.on_values):
+                elif data & set(i.on_values):
+                    # only part of the requested symbols is handled by this transition: there is no single answer
                     return None
             return self[DFTransition.Else]
         else:
